@@ -39,13 +39,14 @@ def main():
     suite_ok = (p == 146 and f == 0 and r.returncode == 0)
     ran.append("cargo test --workspace --no-fail-fast --offline (with change, demo aside): %d passed, %d failed" % (p, f))
     # (2) demo with change
-    r = sh(["cargo", "test", "--offline", "--test", dname] + feats, wt, env)
+    tail = ["--", "--test-threads=1"] if feats else []
+    r = sh(["cargo", "test", "--offline", "--test", dname] + feats + tail, wt, env)
     p2, f2 = results(r.stdout)
     demo_fails = (f2 > 0 or r.returncode != 0)
     ran.append("cargo test --offline --test %s %s (with change): %d passed, %d failed, rc=%d" % (dname, " ".join(feats), p2, f2, r.returncode))
     # (3) demo without change
     sh("git diff -- src > /tmp/_seed_patch.diff && git checkout -- src", wt)
-    r = sh(["cargo", "test", "--offline", "--test", dname] + feats, wt, env)
+    r = sh(["cargo", "test", "--offline", "--test", dname] + feats + tail, wt, env)
     p3, f3 = results(r.stdout)
     demo_passes = (f3 == 0 and p3 > 0 and r.returncode == 0)
     ran.append("cargo test --offline --test %s %s (without change): %d passed, %d failed, rc=%d" % (dname, " ".join(feats), p3, f3, r.returncode))
